@@ -112,7 +112,11 @@ const ASSOCS: &[&str] = &["M0", "M1"];
 const FUNCS: &[&str] = &["f0", "f1", "f2", "my-func", "g.h"];
 /// user functions that shadow the commands the carrier's own restore lines use
 const SHADOW_DIR: &[&str] = &["cd", "pushd", "popd"];
-const SHADOW_BUILTIN: &[&str] = &["declare", "alias", "shopt", "set", "export", "unset", "source"];
+const SHADOW_BUILTIN: &[&str] = &["declare", "alias", "shopt", "set", "export", "unset", "source", "trap", "eval", "exit", "test", "printf", "echo"];
+/// .. and the external commands of the persisting side (`grep() { command grep --color "$@"; }` is an everyday function)
+const SHADOW_EXTERNAL: &[&str] = &["grep", "sed", "tail", "mkdir"];
+/// aliases with the names of commands the restore lines use: `alias cd='echo alias-cd; cd'`
+const SHADOW_ALIAS: &[&str] = &["cd", "pushd", "declare", "set", "shopt", "alias", "unset", "trap", "test", "exit"];
 const ALIASES: &[&str] = &["a0", "a1", "ll"];
 const SET_OPTS: &[&str] = &["allexport", "errexit", "nounset", "noclobber", "noglob", "pipefail", "posix"];
 const SHOPT_OPTS: &[&str] = &[
@@ -324,6 +328,7 @@ impl Op {
             }
             Op::FnUnset { name } => decorate("fn.unset", name, None),
             Op::Shadow { name } => format!("fn.shadow.{name}"),
+            Op::AliasDef { name, .. } if SHADOW_ALIAS.contains(&name.as_str()) => format!("alias.shadow.{name}"),
             Op::AliasDef { val, .. } => decorate("alias.def", "", Some(val)),
             Op::Unalias { .. } => "alias.unset".into(),
             Op::SetO { opt, on } => format!("opt.set.{opt}.{}", if *on { "on" } else { "off" }),
@@ -352,7 +357,9 @@ impl Op {
             Op::FnDef { name, .. } if name_class(name) == "dashed" => "fn.dashed",
             Op::FnDef { .. } | Op::FnUnset { .. } => "fn",
             Op::Shadow { name } if SHADOW_DIR.contains(&name.as_str()) => "fn.shadow-dir",
+            Op::Shadow { name } if SHADOW_EXTERNAL.contains(&name.as_str()) => "fn.shadow-external",
             Op::Shadow { .. } => "fn.shadow-builtin",
+            Op::AliasDef { name, .. } if SHADOW_ALIAS.contains(&name.as_str()) => "alias.shadow",
             Op::AliasDef { .. } | Op::Unalias { .. } => "alias",
             Op::SetO { .. } => "opt",
             Op::Shopt { .. } => "shopt",
@@ -392,7 +399,10 @@ impl Op {
             Op::AssocUnsetElem { name, key } => format!("declare -A {name}; unset -v {}", sq_quote(&format!("{name}[{key}]"))),
             Op::FnDef { name, body } => body.replace("NAME", name),
             Op::FnUnset { name } => format!("unset -f {name}"),
-            Op::Shadow { name } => format!("{name}() {{ builtin {name} \"$@\" && echo \"shadow-{name}\"; }}"),
+            Op::Shadow { name } if SHADOW_EXTERNAL.contains(&name.as_str()) => {
+                format!("{name}() {{ command {name} \"$@\" && builtin echo \"shadow-{name}\"; }}")
+            }
+            Op::Shadow { name } => format!("{name}() {{ builtin {name} \"$@\" && builtin echo \"shadow-{name}\"; }}"),
             Op::AliasDef { name, val } => format!("alias {name}={}", sq_quote(val)),
             Op::Unalias { name } => format!("unalias {name} 2>/dev/null || true"),
             Op::SetO { opt, on } => format!("set {}o {opt}", if *on { "-" } else { "+" }),
@@ -480,6 +490,7 @@ impl Op {
                 }
             }
             Op::FnDef { name, body } if body != BODIES[0].1 => v.push(Op::FnDef { name: name.clone(), body: BODIES[0].1.into() }),
+            Op::AliasDef { name, .. } if SHADOW_ALIAS.contains(&name.as_str()) => {}
             Op::AliasDef { name, val } if !value_class(val).is_empty() => v.push(Op::AliasDef { name: name.clone(), val: "ls".into() }),
             Op::Mkcd { dir } if !value_class(dir).is_empty() => v.push(Op::Mkcd { dir: "d1".into() }),
             Op::Pushd { dir } if !value_class(dir).is_empty() => v.push(Op::Pushd { dir: "d1".into() }),
@@ -517,8 +528,8 @@ impl History {
 /// `set +o` / `shopt -p` are printed before the sub-shell relaxes its own options.
 fn probe_text() -> String {
     let vars = var_names().join(" ");
-    let funcs = FUNCS.iter().chain(SHADOW_DIR).chain(SHADOW_BUILTIN).copied().collect::<Vec<_>>().join(" ");
-    let aliases = ALIASES.join(" ");
+    let funcs = FUNCS.iter().chain(SHADOW_DIR).chain(SHADOW_BUILTIN).chain(SHADOW_EXTERNAL).copied().collect::<Vec<_>>().join(" ");
+    let aliases = ALIASES.iter().chain(SHADOW_ALIAS).copied().collect::<Vec<_>>().join(" ");
     format!(
         r#"(
 echo "@@opts"; builtin set +o
@@ -1085,6 +1096,8 @@ struct Risky {
     dashed: bool,
     shadow_dir: bool,
     shadow_builtin: bool,
+    shadow_external: bool,
+    shadow_alias: bool,
 }
 
 fn gen_history(rng: &mut Rng) -> History {
@@ -1095,6 +1108,8 @@ fn gen_history(rng: &mut Rng) -> History {
         dashed: rng.chance(1, 5),
         shadow_dir: rng.chance(1, 6),
         shadow_builtin: rng.chance(1, 8),
+        shadow_external: rng.chance(1, 10),
+        shadow_alias: rng.chance(1, 8),
     };
     let n_steps = rng.range(2, 8);
     // a history that may contain a risky class does contain it: forced at a random step
@@ -1105,11 +1120,13 @@ fn gen_history(rng: &mut Rng) -> History {
     let force_posix = slot(rng, risky.posix, n_steps);
     let force_shadow_dir = slot(rng, risky.shadow_dir, n_steps - 1);
     let force_shadow_builtin = slot(rng, risky.shadow_builtin, n_steps - 1);
+    let force_shadow_external = slot(rng, risky.shadow_external, n_steps - 1);
+    let force_shadow_alias = slot(rng, risky.shadow_alias, n_steps - 1);
     let mut m = Model { extglob_locked: false, posix: false, declare_shadowed: false, readonly_used: BTreeSet::new(), ups: 0 };
     let mut steps = vec![];
     for si in 0..n_steps {
         let n_ops = rng.range(1, 4);
-        let forced_here = [force_readonly, force_allexport, force_dashed, force_posix, force_shadow_dir, force_shadow_builtin].iter().any(|f| *f == Some(si));
+        let forced_here = [force_readonly, force_allexport, force_dashed, force_posix, force_shadow_dir, force_shadow_builtin, force_shadow_external, force_shadow_alias].iter().any(|f| *f == Some(si));
         let detached = !forced_here && rng.chance(1, 12);
         let mut ops = vec![];
         let posix_before = m.posix;
@@ -1125,6 +1142,13 @@ fn gen_history(rng: &mut Rng) -> History {
                 m.declare_shadowed = true;
             }
             ops.push(Op::Shadow { name: name.to_string() });
+        }
+        if force_shadow_external == Some(si) && !m.posix {
+            ops.push(Op::Shadow { name: rng.pick(SHADOW_EXTERNAL).to_string() });
+        }
+        if force_shadow_alias == Some(si) {
+            let name = *rng.pick(SHADOW_ALIAS);
+            ops.push(Op::AliasDef { name: name.to_string(), val: format!("echo alias-{name}; {name}") });
         }
         if force_dashed == Some(si) && !m.posix {
             let name = *rng.pick(&["my-func", "g.h"]);
@@ -1199,6 +1223,8 @@ impl Monitor for C12 {
             ("probed:fn".into(), f(80, 1200)),
             ("probed:fn.shadow-dir".into(), f(15, 225)),
             ("probed:fn.shadow-builtin".into(), f(6, 90)),
+            ("probed:fn.shadow-external".into(), f(5, 75)),
+            ("probed:alias.shadow".into(), f(6, 90)),
             ("probed:fn.dashed".into(), f(15, 225)),
             ("probed:alias".into(), f(70, 1050)),
             ("probed:opt".into(), f(70, 1050)),
